@@ -5,20 +5,26 @@
    Statements only; proofs in Proofs/L1DScaleProofs.v (generic number
    structure) and Proofs/L1DScaleInst.v (rationals with +-infinity).
 
-   FULL STATEMENT (the goal): for every history h,
+   STATEMENT: for every history h in which the learnt function returns
+   either always scalars or always vectors ([shaped]),
        run P' init' (scale_hist h) = scale_state (run P init h),
    every ask returns sigma-scaled points with identical improvements, loss()
-   identical.  PROVED below for every history whose [tell_many] operations
-   take the incremental path ([legal]: also says that the learnt function
-   returns either always scalars or always vectors); the batch path of
-   tell_many is not covered by the proof (hence [_partial]) -- it is covered
-   by the twin run on the real class and by the in-Coq twin run of the float
-   model (Run/L1DScaleRun.v) on every generated history. *)
+   identical ([C12_l1d_equivariant], for number structures without NaN; closed
+   for the rationals with +-infinity in [C12_l1d_equivariant_rational]).
+   [C12_l1d_equivariant_nan_partial] is the NaN-tolerant variant (nanmin /
+   nanmax of vector outputs handled), proved for the histories whose
+   [tell_many] take the incremental path ([legal]); with NaN values the batch
+   path of tell_many is covered only by the twin runs of the check.
+   One lemma per operation: C12_tell, C12_tell_pending, C12_remove_unfinished,
+   C12_ask, C12_tell_many_batch, C12_loss.
+   Hypotheses (all explicit): ScaleLaws, OrdLaws, LossFlat (the loss function
+   ignores a common rescaling of values whose range is zero -- the only case
+   in which the learner passes un-normalised values, [_scale[1] or 1]). *)
 From Coq Require Import QArith Qcanon.
 From AV Require Import Base.Prelude Model.L1D Proofs.L1DScaleProofs Proofs.L1DScaleInst.
 
 (* the simulation theorem, generic in the number structure *)
-Theorem C12_l1d_equivariant_partial :
+Theorem C12_l1d_equivariant_nan_partial :
   forall (num : Type) (add sub mul div : num -> num -> num) (ltb eqb : num -> num -> bool)
          (zero one inf neg_inf : num) (is_nan is_inf : num -> bool) (round12 : num -> num)
          (of_nat : nat -> num) (L : list (option num) -> list (option (Y num)) -> num)
@@ -47,6 +53,93 @@ Theorem C12_l1d_equivariant_partial :
                         (init sub zero inf neg_inf P) h) real).
 Proof. exact l1d_scale_equivariant. Qed.
 
+(* the full statement (number structures without NaN) *)
+Theorem C12_l1d_equivariant :
+  forall (num : Type) (add sub mul div : num -> num -> num) (ltb eqb : num -> num -> bool)
+         (zero one inf neg_inf : num) (is_nan is_inf : num -> bool) (round12 : num -> num)
+         (of_nat : nat -> num) (L : list (option num) -> list (option (Y num)) -> num)
+         (sx_ sy_ : num -> num) (P : params num),
+    ScaleLaws add sub mul div ltb eqb zero inf neg_inf is_nan sx_ sy_ ->
+    OrdLaws ltb eqb ->
+    LossFlat sub div ltb eqb zero one is_nan L sy_ ->
+    forall vec : bool,
+    (forall a : num, is_nan a = false) ->
+    forall h : list (op num),
+      shaped vec h ->
+      run add sub mul div ltb eqb zero one inf neg_inf is_nan is_inf round12 of_nat L (sc_P sx_ P)
+          (init sub zero inf neg_inf (sc_P sx_ P)) (map (sc_op sx_ sy_) h)
+      = sc_st sx_ sy_ (run add sub mul div ltb eqb zero one inf neg_inf is_nan is_inf round12 of_nat L P
+                           (init sub zero inf neg_inf P) h)
+      /\ trace add sub mul div ltb eqb zero one inf neg_inf is_nan is_inf round12 of_nat L (sc_P sx_ P)
+               (init sub zero inf neg_inf (sc_P sx_ P)) (map (sc_op sx_ sy_) h)
+         = map (sc_out sx_)
+               (trace add sub mul div ltb eqb zero one inf neg_inf is_nan is_inf round12 of_nat L P
+                      (init sub zero inf neg_inf P) h)
+      /\ (forall real : bool,
+            loss sub div ltb eqb inf is_nan is_inf round12 (sc_P sx_ P)
+                 (run add sub mul div ltb eqb zero one inf neg_inf is_nan is_inf round12 of_nat L (sc_P sx_ P)
+                      (init sub zero inf neg_inf (sc_P sx_ P)) (map (sc_op sx_ sy_) h)) real
+            = loss sub div ltb eqb inf is_nan is_inf round12 P
+                   (run add sub mul div ltb eqb zero one inf neg_inf is_nan is_inf round12 of_nat L P
+                        (init sub zero inf neg_inf P) h) real).
+Proof. exact l1d_scale_equivariant_full. Qed.
+
+(* one lemma per operation (Inv: the "values absorbed by their bounding box" invariant) *)
+Theorem C12_tell :
+  forall (num : Type) (add sub mul div : num -> num -> num) (ltb eqb : num -> num -> bool) (zero one inf neg_inf : num)
+         (is_nan is_inf : num -> bool) (round12 : num -> num) (L : list (option num) -> list (option (Y num)) -> num)
+         (sx_ sy_ : num -> num) (P : params num),
+    ScaleLaws add sub mul div ltb eqb zero inf neg_inf is_nan sx_ sy_ -> OrdLaws ltb eqb ->
+    LossFlat sub div ltb eqb zero one is_nan L sy_ ->
+    forall (vec : bool) (s : st num) (x : num) (y : Y num),
+      Inv sub ltb eqb zero is_nan vec s -> is_vec y = vec ->
+      tell sub mul div ltb eqb zero one inf neg_inf is_nan is_inf round12 L (sc_P sx_ P) (sc_st sx_ sy_ s) (sx_ x) (ymap sy_ y)
+      = sc_st sx_ sy_ (tell sub mul div ltb eqb zero one inf neg_inf is_nan is_inf round12 L P s x y)
+      /\ Inv sub ltb eqb zero is_nan vec (tell sub mul div ltb eqb zero one inf neg_inf is_nan is_inf round12 L P s x y).
+Proof. exact tell_sc. Qed.
+
+Theorem C12_tell_pending :
+  forall (num : Type) (add sub mul div : num -> num -> num) (ltb eqb : num -> num -> bool) (zero one inf neg_inf : num)
+         (is_nan : num -> bool) (L : list (option num) -> list (option (Y num)) -> num) (sx_ sy_ : num -> num) (P : params num),
+    ScaleLaws add sub mul div ltb eqb zero inf neg_inf is_nan sx_ sy_ ->
+    LossFlat sub div ltb eqb zero one is_nan L sy_ ->
+    forall (vec : bool) (s : st num) (x : num),
+      Inv sub ltb eqb zero is_nan vec s ->
+      tell_pending sub mul div ltb eqb zero one inf L (sc_P sx_ P) (sc_st sx_ sy_ s) (sx_ x)
+      = sc_st sx_ sy_ (tell_pending sub mul div ltb eqb zero one inf L P s x)
+      /\ Inv sub ltb eqb zero is_nan vec (tell_pending sub mul div ltb eqb zero one inf L P s x).
+Proof. exact tell_pending_sc. Qed.
+
+Theorem C12_remove_unfinished :
+  forall (num : Type) (sub : num -> num -> num) (ltb eqb : num -> num -> bool) (zero : num) (is_nan : num -> bool)
+         (sx_ sy_ : num -> num) (vec : bool) (s : st num),
+    remove_unfinished (sc_st sx_ sy_ s) = sc_st sx_ sy_ (remove_unfinished s)
+    /\ (Inv sub ltb eqb zero is_nan vec s -> Inv sub ltb eqb zero is_nan vec (remove_unfinished s)).
+Proof. exact remove_unfinished_sc. Qed.
+
+Theorem C12_ask :
+  forall (num : Type) (add sub mul div : num -> num -> num) (ltb eqb : num -> num -> bool) (zero one inf neg_inf : num)
+         (is_nan is_inf : num -> bool) (round12 : num -> num) (of_nat : nat -> num)
+         (L : list (option num) -> list (option (Y num)) -> num) (sx_ sy_ : num -> num) (P : params num),
+    ScaleLaws add sub mul div ltb eqb zero inf neg_inf is_nan sx_ sy_ ->
+    LossFlat sub div ltb eqb zero one is_nan L sy_ ->
+    forall (vec : bool) (s : st num) (n : nat) (c : bool),
+      Inv sub ltb eqb zero is_nan vec s ->
+      ask add sub mul div ltb eqb zero one inf is_nan is_inf round12 of_nat L (sc_P sx_ P) (sc_st sx_ sy_ s) n c
+      = (sc_st sx_ sy_ (fst (ask add sub mul div ltb eqb zero one inf is_nan is_inf round12 of_nat L P s n c)),
+         sc_out sx_ (snd (ask add sub mul div ltb eqb zero one inf is_nan is_inf round12 of_nat L P s n c)))
+      /\ Inv sub ltb eqb zero is_nan vec (fst (ask add sub mul div ltb eqb zero one inf is_nan is_inf round12 of_nat L P s n c)).
+Proof. exact ask_sc. Qed.
+
+Theorem C12_loss :
+  forall (num : Type) (add sub mul div : num -> num -> num) (ltb eqb : num -> num -> bool) (zero inf neg_inf : num)
+         (is_nan is_inf : num -> bool) (round12 sx_ sy_ : num -> num) (P : params num),
+    ScaleLaws add sub mul div ltb eqb zero inf neg_inf is_nan sx_ sy_ ->
+    forall (s : st num) (real : bool),
+      loss sub div ltb eqb inf is_nan is_inf round12 (sc_P sx_ P) (sc_st sx_ sy_ s) real
+      = loss sub div ltb eqb inf is_nan is_inf round12 P s real.
+Proof. exact loss_sc. Qed.
+
 (* the laws are inhabited: rationals with +-infinity, any positive factors *)
 Theorem C12_scale_laws_rational : forall kx ky : Qc, (0 < kx)%Qc -> (0 < ky)%Qc ->
   ScaleLaws xadd xsub xmul xdiv xltb xeqb xzero PInf NInf xis_nan (scl kx) (scl ky).
@@ -60,8 +153,36 @@ Theorem C12_loss_hypothesis_inhabited : forall ky : Qc,
   LossFlat xsub xdiv xltb xeqb xzero xone xis_nan sq_default_loss (scl ky).
 Proof. exact sq_default_loss_flat. Qed.
 
-(* the theorem closed for that number structure (the mathematical statement) *)
-Theorem C12_l1d_equivariant_rational_partial :
+(* the theorem closed for that number structure (the mathematical statement), all histories *)
+Theorem C12_l1d_equivariant_rational :
+  forall kx ky : Qc, (0 < kx)%Qc -> (0 < ky)%Qc ->
+  forall (L : list (option xq) -> list (option (Y xq)) -> xq),
+    LossFlat xsub xdiv xltb xeqb xzero xone xis_nan L (scl ky) ->
+  forall (P : params xq) (vec : bool) (h : list (op xq)),
+    shaped vec h ->
+    let P' := sc_P (scl kx) P in
+    let h' := map (sc_op (scl kx) (scl ky)) h in
+    run xadd xsub xmul xdiv xltb xeqb xzero xone PInf NInf xis_nan xis_inf xround12 xof_nat L P'
+        (init xsub xzero PInf NInf P') h'
+    = sc_st (scl kx) (scl ky)
+            (run xadd xsub xmul xdiv xltb xeqb xzero xone PInf NInf xis_nan xis_inf xround12 xof_nat L P
+                 (init xsub xzero PInf NInf P) h)
+    /\ trace xadd xsub xmul xdiv xltb xeqb xzero xone PInf NInf xis_nan xis_inf xround12 xof_nat L P'
+             (init xsub xzero PInf NInf P') h'
+       = map (sc_out (scl kx))
+             (trace xadd xsub xmul xdiv xltb xeqb xzero xone PInf NInf xis_nan xis_inf xround12 xof_nat L P
+                    (init xsub xzero PInf NInf P) h)
+    /\ (forall real : bool,
+          loss xsub xdiv xltb xeqb PInf xis_nan xis_inf xround12 P'
+               (run xadd xsub xmul xdiv xltb xeqb xzero xone PInf NInf xis_nan xis_inf xround12 xof_nat L P'
+                    (init xsub xzero PInf NInf P') h') real
+          = loss xsub xdiv xltb xeqb PInf xis_nan xis_inf xround12 P
+                 (run xadd xsub xmul xdiv xltb xeqb xzero xone PInf NInf xis_nan xis_inf xround12 xof_nat L P
+                      (init xsub xzero PInf NInf P) h) real).
+Proof. exact l1d_scale_equivariant_rational_full. Qed.
+
+(* NaN-tolerant variant, closed *)
+Theorem C12_l1d_equivariant_rational_nan_partial :
   forall kx ky : Qc, (0 < kx)%Qc -> (0 < ky)%Qc ->
   forall (L : list (option xq) -> list (option (Y xq)) -> xq),
     LossFlat xsub xdiv xltb xeqb xzero xone xis_nan L (scl ky) ->
@@ -97,8 +218,15 @@ Example C12_example_legal :
         [Tell (Fin 0%Qc) (YS (Fin 0%Qc)); Tell (Fin 1%Qc) (YS (Fin 1%Qc)); Ask 1 true].
 Proof. exact l1d_scale_example. Qed.
 
-Print Assumptions C12_l1d_equivariant_partial.
+Print Assumptions C12_l1d_equivariant.
+Print Assumptions C12_l1d_equivariant_nan_partial.
+Print Assumptions C12_tell.
+Print Assumptions C12_tell_pending.
+Print Assumptions C12_remove_unfinished.
+Print Assumptions C12_ask.
+Print Assumptions C12_loss.
 Print Assumptions C12_scale_laws_rational.
 Print Assumptions C12_ord_laws_rational.
 Print Assumptions C12_loss_hypothesis_inhabited.
-Print Assumptions C12_l1d_equivariant_rational_partial.
+Print Assumptions C12_l1d_equivariant_rational.
+Print Assumptions C12_l1d_equivariant_rational_nan_partial.
